@@ -149,4 +149,15 @@ theorem allSome_autoInts (l : List Int) : allSome ((l.map Atom.int).map atomAuto
     simp only [List.map_cons, allSome, atomAutoInt] at *
     rw [ih]; rfl
 
+/-- a stored list of enum values (integers, all members) is read back element by element -/
+theorem parseEach_enums (ms : List (Str × Int)) (l : List Int) (h : l.all (fun i => ms.any (·.2 == i)) = true) :
+    parseEach (enumElem ms) (l.map Atom.int) = .ok l := by
+  induction l with
+  | nil => rfl
+  | cons a l ih =>
+    simp only [List.all_cons, Bool.and_eq_true] at h
+    have h1 : enumElem ms (.int a) = .ok a := by simp only [enumElem, enumLookup, h.1, if_true]
+    simp only [List.map_cons, parseEach, h1]
+    rw [ih h.2]
+
 end Gallia.Config
